@@ -1,3 +1,4 @@
+import Oidc.Shapes
 import Oidc.Proofs.VerifyRevoke
 import Oidc.Facts
 /-! # C14 — caching a verification result never changes the verdict (property theorems only)
@@ -64,5 +65,16 @@ example : (verify exF exT (revoke exF exT (verify exF exT exV 5 "t").1 6 "t") 11
 example : RoomAlong exF exT (revoke exF exT exV 6 "t") [.verify 7 "t", .verify 8 "u", .tick 9, .verify 1100 "t"] := by
   simp only [RoomAlong]
   refine ⟨?_, ?_, ?_, ?_, trivial⟩ <;> decide
+
+/-! obligations against the regenerated program text: the functions these theorems rest on read, statement for statement, as
+    they did when the model was written after them (`Oidc/Shapes.lean`) -/
+theorem text_TraefikOidc_VerifyToken_ok : Oidc.Shapes.Text_TraefikOidc_VerifyToken := by unfold Oidc.Shapes.Text_TraefikOidc_VerifyToken; rfl
+theorem text_TraefikOidc_performPreVerificationChecks_ok : Oidc.Shapes.Text_TraefikOidc_performPreVerificationChecks := by unfold Oidc.Shapes.Text_TraefikOidc_performPreVerificationChecks; rfl
+theorem text_TraefikOidc_RevokeToken_ok : Oidc.Shapes.Text_TraefikOidc_RevokeToken := by unfold Oidc.Shapes.Text_TraefikOidc_RevokeToken; rfl
+theorem text_TokenCache_Set_ok : Oidc.Shapes.Text_TokenCache_Set := by unfold Oidc.Shapes.Text_TokenCache_Set; rfl
+theorem text_TokenCache_Get_ok : Oidc.Shapes.Text_TokenCache_Get := by unfold Oidc.Shapes.Text_TokenCache_Get; rfl
+theorem text_TokenCache_Delete_ok : Oidc.Shapes.Text_TokenCache_Delete := by unfold Oidc.Shapes.Text_TokenCache_Delete; rfl
+theorem text_TokenCache_Cleanup_ok : Oidc.Shapes.Text_TokenCache_Cleanup := by unfold Oidc.Shapes.Text_TokenCache_Cleanup; rfl
+theorem text_extractClaims_ok : Oidc.Shapes.Text_extractClaims := by unfold Oidc.Shapes.Text_extractClaims; rfl
 
 end Oidc.Props.C14
